@@ -12,7 +12,8 @@ namespace SgVerif.C24
 def TreeLike (P : Plat) : Prop := ∀ np, (allEnglobing P np).Nodup
 
 /-- no bypass route declares a destination gateway that lives in a zone whose `get_local_route` inserts at the front
-(DijkstraZone).  Needed only while `fixedSameZoneAppend = false`, see `global_route_is_concat_counterexample`. -/
+(DijkstraZone).  Needed only by the regression theorems about the code *before* the fix
+`bypass-tail-in-dijkstra-zone` (`globalRouteV false`), see `global_route_is_concat_prefix_counterexample`. -/
 def BypassGwNotInPrependZone (P : Plat) : Prop :=
   ∀ z k b g, (k, b) ∈ P.bypass z → b.gwDst = some g → P.prepend (P.zoneOf g) = false
 
@@ -82,32 +83,37 @@ theorem bypassOk_of (P : Plat) (h : BypassGwNotInPrependZone P) : BypassOk P := 
   intro z src dst key b g hv hg
   exact h z key b g (lookupKey_mem _ _ _ (bypassFind_via_declared P z src dst key b hv)) hg
 
-/-
-FULL-STRENGTH STATEMENT (false on the current code, see the counterexample below; true once
-props/C24/proposed_fix.diff is applied and `fixedSameZoneAppend := true`):
-
-  theorem global_route_is_concat (P : Plat) (hT : TreeLike P) (f : Nat) (src dst : Np) :
-      globalRoute P f src dst [] 0 = lift P 0 (fun l => l) (specRoute P f src dst)
--/
-
-/-- **Composition (up ++ ancestor/bypass ++ down, in path order).**  For every platform whose bypass routes do not
-end at a gateway inside a front-inserting (Dijkstra) zone, every recursion bound, every pair of netpoints:
+/-- **Composition (up ++ ancestor/bypass ++ down, in path order) — full strength.**  For every platform (the only
+structural hypothesis: a walk to the root does not meet a zone twice), every recursion bound, every pair of netpoints:
 the iterative `get_global_route_with_netzones` returns exactly the concatenation of the segments of the recursive
-specification, in that order, and the latency it accumulated is the sum over those segments; errors coincide too. -/
-theorem global_route_is_concat_partial (P : Plat) (hT : TreeLike P) (hB : BypassGwNotInPrependZone P)
-    (f : Nat) (src dst : Np) :
+specification, in that order, and the latency it accumulated is the sum over those segments; errors coincide too.
+(Before the fix `bypass-tail-in-dijkstra-zone` this needed `BypassGwNotInPrependZone`: see the `_prefix_` theorems.) -/
+theorem global_route_is_concat (P : Plat) (hT : TreeLike P) (f : Nat) (src dst : Np) :
     globalRoute P f src dst [] 0 = lift P 0 (fun l => l) (specRoute P f src dst) := by
-  have h := globalRoute_spec P hT (bypassOk_of P hB) f src dst [] 0 (Or.inl rfl)
+  have h := globalRoute_spec P hT f src dst [] 0
   simpa using h
 
 /-- same statement with an arbitrary prefix already accumulated in the in/out parameters (what the recursive calls
-made by `get_bypass_route` rely on) -/
-theorem global_route_appends_partial (P : Plat) (hT : TreeLike P) (hB : BypassGwNotInPrependZone P)
-    (f : Nat) (src dst : Np) (links : List Lk) (lat : Int) (h : links = [] ∨ P.prepend (P.zoneOf src) = false) :
+made by `get_bypass_route` rely on) — full strength: whatever was accumulated stays in front, in every kind of zone -/
+theorem global_route_appends (P : Plat) (hT : TreeLike P) (f : Nat) (src dst : Np) (links : List Lk) (lat : Int) :
     globalRoute P f src dst links lat = lift P lat (links ++ ·) (specRoute P f src dst) :=
-  globalRoute_spec P hT (bypassOk_of P hB) f src dst links lat h
+  globalRoute_spec P hT f src dst links lat
 
-/-- platforms without any Dijkstra zone, or with the fix applied, satisfy the hypothesis trivially -/
+/- ---- regression: the code before the fix (same-zone case handing the accumulated list to the zone) -/
+
+/-- the composition theorem as it stood before the fix: the pre-fix variant needs the extra hypothesis on bypass routes -/
+theorem global_route_is_concat_prefix_partial (P : Plat) (hT : TreeLike P) (hB : BypassGwNotInPrependZone P)
+    (f : Nat) (src dst : Np) :
+    globalRouteV false P f src dst [] 0 = lift P 0 (fun l => l) (specRoute P f src dst) := by
+  have h := globalRouteV_spec false P hT (Or.inr (bypassOk_of P hB)) f src dst [] 0 (Or.inr (Or.inl rfl))
+  simpa using h
+
+theorem global_route_appends_prefix_partial (P : Plat) (hT : TreeLike P) (hB : BypassGwNotInPrependZone P)
+    (f : Nat) (src dst : Np) (links : List Lk) (lat : Int) (h : links = [] ∨ P.prepend (P.zoneOf src) = false) :
+    globalRouteV false P f src dst links lat = lift P lat (links ++ ·) (specRoute P f src dst) :=
+  globalRouteV_spec false P hT (Or.inr (bypassOk_of P hB)) f src dst links lat (Or.inr h)
+
+/-- platforms without any Dijkstra zone satisfy the pre-fix hypothesis trivially -/
 theorem bypassGw_ok_of_no_prepend (P : Plat) (h : ∀ z, P.prepend z = false) : BypassGwNotInPrependZone P :=
   fun _ _ _ g _ _ => h (P.zoneOf g)
 
@@ -342,13 +348,12 @@ theorem spec_segments_declared (P : Plat) : ∀ (f : Nat) (src dst : Np) (segs :
 
 /- ---------------------------------------------------------------- latency -/
 
-/-- **Latency = Σ link latencies + Σ coordinate terms of the zones crossed** (same hypotheses as the composition
-theorem, of which it is a corollary; `_partial` for that reason only — the latency itself does not depend on the
-order of the links). -/
-theorem latency_is_sum_partial (P : Plat) (hT : TreeLike P) (hB : BypassGwNotInPrependZone P)
+/-- **Latency = Σ link latencies + Σ coordinate terms of the zones crossed** — full strength (corollary of the
+composition theorem, same single hypothesis). -/
+theorem latency_is_sum (P : Plat) (hT : TreeLike P)
     (f : Nat) (src dst : Np) (l : List Lk) (t : Int) (h : globalRoute P f src dst [] 0 = .ok (l, t)) :
     ∃ segs, specRoute P f src dst = .ok segs ∧ l = flatLinks segs ∧ t = sumLat P l + segsExtra segs := by
-  rw [global_route_is_concat_partial P hT hB] at h
+  rw [global_route_is_concat P hT] at h
   cases hs : specRoute P f src dst with
   | error e => simp [hs, lift] at h
   | ok segs =>
@@ -365,11 +370,11 @@ theorem segsExtra_zero (segs : List Seg) (h : ∀ s ∈ segs, Seg.extra s = 0) :
     rw [h s (by simp), ih (fun s hs => h s (by simp [hs]))]; rfl
 
 /-- without Vivaldi zones (no zone adds anything beyond its links): latency = Σ latencies of the returned links -/
-theorem latency_is_sum_of_links_partial (P : Plat) (hT : TreeLike P) (hB : BypassGwNotInPrependZone P)
+theorem latency_is_sum_of_links (P : Plat) (hT : TreeLike P)
     (hX : ∀ z a b r, P.loc z a b = some r → r.extra = 0)
     (f : Nat) (src dst : Np) (l : List Lk) (t : Int) (h : globalRoute P f src dst [] 0 = .ok (l, t)) :
     t = sumLat P l := by
-  obtain ⟨segs, hs, _, ht⟩ := latency_is_sum_partial P hT hB f src dst l t h
+  obtain ⟨segs, hs, _, ht⟩ := latency_is_sum P hT f src dst l t h
   have hv := spec_segments_declared P f src dst segs hs
   have h0 : segsExtra segs = 0 := by
     apply segsExtra_zero
@@ -428,7 +433,7 @@ theorem oneway_route_not_reversed (recursive : Bool) (t t' : Table) (src dst : N
     · simp [tableGet, List.find?, hk1]
 
 /- ================================================================ concrete platforms: non-vacuity, regression
-   witness of the fixed defect D4, and the counterexample to the full-strength statement -/
+   witnesses of the fixed defects D4 and `bypass-tail-in-dijkstra-zone` -/
 
 /-- root(0) Full { Z0(1) {g=10},  Z1(2) Star { r1=11, Z2(3) Full { h=12, r2=13 } } };
 Z2: h→r2 = [1,2];  Z1: Z2@r2 → r1 = [3,4];  root: Z1@r1 → Z0@g = [5,6]  (and the symmetric reverses). -/
@@ -489,18 +494,29 @@ theorem witnessBypassDijkstra_tree : TreeLike witnessBypassDijkstra := by
   simp only [allEnglobing, witnessBypassDijkstra]
   split <;> decide
 
-/-- **Counterexample to the full-strength composition statement on the current code**: a bypass route whose
-destination gateway lies in a Dijkstra zone.  The implementation hands the accumulated list to
-`DijkstraZone::get_local_route`, which inserts at the front: g→h comes out as `2 1 7` (last segment first) where
-the concatenation in path order is `1 7 2`.  Replayed on the library by the check (key
-`bypass-tail-in-dijkstra-zone`). -/
-theorem global_route_is_concat_counterexample :
-    TreeLike witnessBypassDijkstra ∧
-    routeTo witnessBypassDijkstra 10 12 = .ok ([2, 1, 7], 3) ∧
+/-- **Regression witness of the fixed defect `bypass-tail-in-dijkstra-zone`**: a bypass route whose destination
+gateway lies in a Dijkstra zone.  Before the fix the implementation handed the accumulated list to
+`DijkstraZone::get_local_route`, which inserts at the front: g→h came out as `2 1 7` (last segment first) where the
+concatenation in path order is `1 7 2` — the pre-fix variant violates the full-strength statement, and the platform
+does not satisfy the hypothesis the pre-fix theorem needed.  (Corpus case `bypass-dijkstra` replays it on the library.) -/
+theorem global_route_is_concat_prefix_counterexample :
+    TreeLike witnessBypassDijkstra ∧ ¬ BypassGwNotInPrependZone witnessBypassDijkstra ∧
+    routeToV false witnessBypassDijkstra 10 12 = .ok ([2, 1, 7], 3) ∧
     (specRouteTo witnessBypassDijkstra 10 12).toOption.map flatLinks = some [1, 7, 2] ∧
-    globalRoute witnessBypassDijkstra 5 10 12 [] 0 ≠
+    globalRouteV false witnessBypassDijkstra 5 10 12 [] 0 ≠
       lift witnessBypassDijkstra 0 (fun l => l) (specRoute witnessBypassDijkstra 5 10 12) :=
-  ⟨witnessBypassDijkstra_tree, by decide, by decide, by decide⟩
+  ⟨witnessBypassDijkstra_tree,
+   fun h => absurd (h 0 (1, 2) { gwSrc := some 11, gwDst := some 13, links := [7] } 13 (by simp [witnessBypassDijkstra]) rfl)
+     (by decide),
+   by decide, by decide, by decide⟩
+
+/-- the same platform on the code as it is now: `1 7 2`, the concatenation in path order (non-vacuity of
+`global_route_is_concat` on a platform outside the old hypothesis) -/
+theorem global_route_is_concat_fixed_witness :
+    routeTo witnessBypassDijkstra 10 12 = .ok ([1, 7, 2], 3) ∧
+    globalRoute witnessBypassDijkstra 5 10 12 [] 0 =
+      lift witnessBypassDijkstra 0 (fun l => l) (specRoute witnessBypassDijkstra 5 10 12) :=
+  ⟨by decide, global_route_is_concat _ witnessBypassDijkstra_tree 5 10 12⟩
 
 /-- non-vacuity of `symmetric_route_reversed`: a 3-link inter-zone route with gateways -/
 example : ∃ t', fullAddRoute true [] 1 2 (some 11) (some 13) [5, 6, 7] true = some t' ∧
